@@ -22,6 +22,15 @@ def tree_job(kind, name, n, iters=0, tear=0, inv=1, san='', unpacked=False, dead
     return j
 
 
+def with_clang(job, name):
+    """the same job built with the second compiler (clang): the hint macros (A_ASSUME, A_LIKELY, A_PREREQ_GNUC paths) expand differently"""
+    j = dict(job)
+    j['name'] = name
+    j['build_name'] = job['build_name'] + '-clang'
+    j['cc'] = 'clang'
+    return j
+
+
 def c01_jobs(tier):
     if tier == 'quick':
         return [tree_job('avl', 'avl-packed-n18', 18, deadline=100),
@@ -676,6 +685,22 @@ def _with_twins(pid, jobs_fn):
         return jobs_fn(tier) + [{'name': 'macro-twins', 'build_name': 'macro-twins', 'script': 'tools/macro_twins.py', 'harness': [], 'args': ['--headers', ','.join(heads), '--tier', tier], 'timeout': 300}]
     return jobs
 
+
+# ---------------------------------------------------------------- a clang-built clone of the first plain job of the container and byte-level properties
+def _with_clang_clone(jobs_fn, pick):
+    def jobs(tier):
+        js = jobs_fn(tier)
+        for j in js:
+            if pick(j):
+                return js + [with_clang(j, j['name'] + '-clang')]
+        return js
+    return jobs
+
+
+_plain = lambda j: not j.get('san') and not j.get('cc') and 'script' not in j and not j.get('defs', []) == ['-funsigned-char']
+for _pid, _pick in (('C04', lambda j: _plain(j) and 'vec' in j['name']), ('C05', lambda j: _plain(j) and 'que' in j['name']), ('C06', lambda j: _plain(j) and 'rich' in j['name']),
+                    ('C09', _plain), ('C12', _plain), ('C14', _plain), ('C16', _plain), ('C17', _plain), ('C18', lambda j: _plain(j) and j['name'].startswith('utf')), ('C19', lambda j: _plain(j) and 'light' in [str(a) for a in j.get('args', [])] or j['name'] == 'bits-outofline')):
+    CHECKS[_pid]['jobs'] = _with_clang_clone(CHECKS[_pid]['jobs'], _pick)
 
 for _pid in sorted(CHECKS):
     if _pid != 'C20':
